@@ -458,6 +458,79 @@ func (c *Ctx) RunC07(tier string) {
 		})
 	}
 
+	// F5: flat chains of 5 (thorough: also 6) operators, every operator sequence,
+	// two literal assignments; one parenthesis pair over every span of the chain
+	// (quick: for the sequences over - / %). Left associativity over long runs.
+	{
+		opsAll := []byte{'+', '-', '*', '/', '%'}
+		lits := [][]string{{"7", "3", "2", "5", "1", "4", "6"}, {"9", "2", "2", "3", "1", "2", "3"}}
+		lens := []int{5}
+		if thorough {
+			lens = []int{5, 6}
+		}
+		for _, n := range lens {
+			total := 1
+			for i := 0; i < n; i++ {
+				total *= 5
+			}
+			for x := 0; x < total; x++ {
+				if !c.mine() || c.expired() {
+					continue
+				}
+				seq := make([]byte, n)
+				y := x
+				onlyHard := true
+				for i := range seq {
+					seq[i] = opsAll[y%5]
+					y /= 5
+					if seq[i] == '+' || seq[i] == '*' {
+						onlyHard = false
+					}
+				}
+				for li, lit := range lits {
+					build := func(lo, hi int) string { // parenthesis pair around operands lo..hi (none when lo < 0)
+						var sb strings.Builder
+						for i := 0; i <= n; i++ {
+							if i == lo {
+								sb.WriteByte('(')
+							}
+							sb.WriteString(lit[i])
+							if i == hi {
+								sb.WriteByte(')')
+							}
+							if i < n {
+								sb.WriteByte(seq[i])
+							}
+						}
+						return sb.String()
+					}
+					emit := func(e string) {
+						if k, err := expectFromSource("operand", "dat "+e+", "+e+"\n", cfgM(bigM, g.ICWS94)); err == nil {
+							c.runC07(k)
+							c.Rep.Count(fmt.Sprintf("c07:chains-of-%d-operators", n))
+						}
+						last = e
+					}
+					emit(build(-1, -1))
+					if li == 0 && (thorough || onlyHard) {
+						for lo := 0; lo < n; lo++ {
+							for hi := lo + 1; hi <= n; hi++ {
+								if lo == 0 && hi == n {
+									continue
+								}
+								emit(build(lo, hi))
+							}
+						}
+						if k, err := expectFromSource("assert", ";assert "+build(-1, -1)+"\ndat 0, 0\n", cfgM(8000, g.ICWS94)); err == nil {
+							c.runC07(k)
+						}
+					}
+				}
+			}
+		}
+		rep.Bound += fmt.Sprintf("; flat chains of %v operators: every operator sequence x 2 literal assignments, and one parenthesis pair over every span (quick: for the sequences over - / %%)", lens)
+	}
+
 	// intermediate values beyond 32 bits with a result that fits (exact arithmetic)
 	if c.Sh.I == 1%c.Sh.N {
 		for _, e := range []string{"2147483647*2/2", "2147483647+1-1", "2147483647*3%7", "(2147483647+2147483647)/2", "2147483647*2147483647/2147483647", "0-2147483647*2/2", "(2147483647*4-1)/4", "2147483647*2-2147483647", "100*100*100*100*100/10000000"} {
